@@ -13,7 +13,7 @@ EXPLANATION = (
     "policy.next_backoff(attempt) taken before the increment; (LAST-OUTCOME) every returned payload originates, "
     "through moves only, in the result of the wrapped call awaited in the same iteration (or is a readiness error "
     "of the wrapped service, see C20); no wrapped call follows the first Ok or a refused error. Not decided: that "
-    "sleep sleeps at least the requested time; purity of the predicate; the budget's own arithmetic (C08).")
+    "sleep sleeps at least the requested time; purity of the predicate; the budget's own arithmetic (C08). The slept duration is wholly the computed backoff (no leaf of it is anything but the next_backoff call).")
 RULE = "one obligation per loop-bound clause, per gate, per return site"
 TRUSTED = ["tokio::time::sleep", "rustc MIR construction"]
 ASSUMPTIONS = ["max_attempts / should_retry / try_withdraw / next_backoff are the public names of the configuration hooks"]
